@@ -51,7 +51,7 @@ def main():
                 ok = clean.returncode == 0 and broken.returncode == 1 and "58 passed" in tests
                 verdict = f"clean rc={clean.returncode} changed rc={broken.returncode} tests={tests}"
                 if ok:
-                    dest = VERIF / "seeded" / d.name
+                    dest = VERIF / "seeded" / (d.name + (os.environ.get("SEED_SUFFIX", "") if d.parent.name == "_seed" else ""))
                     dest.mkdir(parents=True, exist_ok=True)
                     if dest.resolve() != d.resolve():
                         shutil.copy(d / "patch.diff", dest / "patch.diff")
